@@ -229,6 +229,9 @@ func genC08Str(t *rapid.T) c08Str {
 	case 3:
 		c.Origin = "cashaddr-any-symbols"
 		prefix := genKnownPrefix(t)
+		if rapid.IntRange(0, 3).Draw(t, "longprefix") == 0 { // any lower-case prefix is a CashAddr prefix, of any length
+			prefix = strings.Repeat(rapid.StringMatching("[a-z]{1,3}").Draw(t, "pfxunit"), rapid.SampledFrom([]int{1, 11, 16, 17, 32, 33, 64, 65, 128, 300, 1000}).Draw(t, "pfxrep"))
+		}
 		n := rapid.IntRange(0, 120).Draw(t, "n")
 		if rapid.IntRange(0, 3).Draw(t, "tiny") == 0 { // empty / near-empty payload behind a valid checksum
 			n = rapid.IntRange(0, 3).Draw(t, "ntiny")
@@ -526,7 +529,7 @@ func evalC08Filter(c c08Filter, o *Obs) error {
 }
 
 func genC08Filter(t *rapid.T) c08Filter {
-	c := c08Filter{Tweak: rapid.Uint32().Draw(t, "tweak"), Flags: byte(rapid.IntRange(0, 2).Draw(t, "flags")),
+	c := c08Filter{Tweak: rapid.Uint32().Draw(t, "tweak"), Flags: rapid.SampledFrom([]byte{0, 1, 2, 3, 4, 7, 0x80, 0xfe, 0xff}).Draw(t, "flags"),
 		ViaWire: rapid.Bool().Draw(t, "wire"), Item: genBytes(t, "item", 0, 40), Fill: rapid.SampledFrom([]byte{0, 0xff, 0x55}).Draw(t, "fill")}
 	c.FilterLen = rapid.SampledFrom([]int{0, 0, 1, 2, 36000, 35999}).Draw(t, "flen")
 	if rapid.Bool().Draw(t, "flen_small") {
